@@ -13,10 +13,17 @@ use crate::swarm::shrink_chain_cfg;
 pub struct ChainScenario {
     pub prop: String,
     pub cfg: ChainCfg,
+    /// inject a recoverable-class fault at every density evaluation of the fault-free run in turn (strided
+    /// beyond 160 positions) and judge every resulting history
+    #[serde(default)]
+    pub enumerate_faults: bool,
 }
 
 impl Scenario for ChainScenario {
     fn run(&self) -> RunOutcome {
+        if self.enumerate_faults {
+            return self.run_enumeration();
+        }
         let hist = run_chain(&self.cfg);
         let mut out = RunOutcome {
             digest: hist.digest(),
@@ -39,10 +46,24 @@ impl Scenario for ChainScenario {
         out
     }
 
+    fn shrink_with_hint(&self, hint: &Option<J>) -> Vec<Self> {
+        if self.enumerate_faults {
+            if let Some(h) = hint {
+                if let Ok(faults) = serde_json::from_value::<Vec<crate::density::Fault>>(h["faults"].clone()) {
+                    let mut c = self.cfg.clone();
+                    c.faults = faults;
+                    return vec![ChainScenario { prop: self.prop.clone(), cfg: c, enumerate_faults: false }];
+                }
+            }
+            return vec![];
+        }
+        self.shrink()
+    }
+
     fn shrink(&self) -> Vec<Self> {
         let mut v: Vec<ChainScenario> = shrink_chain_cfg(&self.cfg)
             .into_iter()
-            .map(|cfg| ChainScenario { prop: self.prop.clone(), cfg })
+            .map(|cfg| ChainScenario { prop: self.prop.clone(), cfg, enumerate_faults: false })
             .collect();
         if self.prop == "C06" {
             // smaller warmup (keeps the relation of calls to num_tune)
@@ -52,7 +73,7 @@ impl Scenario for ChainScenario {
                     let mut c = self.cfg.clone();
                     c.preset.set_num_tune(k);
                     c.n_calls = k + c.preset.num_draws();
-                    v.push(ChainScenario { prop: self.prop.clone(), cfg: c });
+                    v.push(ChainScenario { prop: self.prop.clone(), cfg: c, enumerate_faults: false });
                 }
             }
         }
@@ -69,6 +90,53 @@ impl Scenario for ChainScenario {
             "faults": self.cfg.faults,
             "settings": serde_json::to_value(&self.cfg.preset).unwrap_or(J::Null),
         })
+    }
+}
+
+impl ChainScenario {
+    fn run_enumeration(&self) -> RunOutcome {
+        use crate::density::{Fault, FaultKind};
+        let mut base = self.cfg.clone();
+        base.faults.clear();
+        let dry = run_chain(&base);
+        let mut out = RunOutcome { digest: dry.digest(), sim_draws: dry.draws.len() as u64, sim_evals: dry.n_evals, ..Default::default() };
+        let mut dg = crate::prng::Digest::new();
+        dg.u64(dry.digest());
+        out.probe(&format!("preset_{}", self.cfg.preset.name()), 1);
+        if dry.new_chain != CallResult::Ok || dry.set_position != CallResult::Ok || dry.failed_call.is_some() || dry.budget_exhausted {
+            out.probe("enumeration_base_run_not_clean", 1);
+            return out;
+        }
+        let n = dry.n_evals;
+        let stride = (n / 160).max(1);
+        let mut k = dry.set_position_evals.1;
+        let mut positions = 0u64;
+        while k < n {
+            for kind in [FaultKind::RecoverableErr, FaultKind::EnergyJump] {
+                let mut c = base.clone();
+                c.faults = vec![Fault { at: k, kind }];
+                let h = run_chain(&c);
+                dg.u64(h.digest());
+                out.sim_draws += h.draws.len() as u64;
+                out.sim_evals += h.n_evals;
+                let before = out.violations.len();
+                match self.prop.as_str() {
+                    "C06" => check_c06(&c, &h, &mut out),
+                    "C16" => check_c16(&c, &h, &mut out),
+                    other => crate::driver::harness_error(&format!("ChainScenario: unknown property {other}")),
+                }
+                for v in out.violations[before..].iter_mut() {
+                    v.detail = format!("fault {} at evaluation {k}: {}", kind.name(), v.detail);
+                    v.hint = Some(json!({"faults": [{"at": k, "kind": kind}]}));
+                }
+                positions += 1;
+            }
+            k += stride;
+        }
+        out.probe("fault_positions_enumerated", positions);
+        out.nontrivial = positions > 0;
+        out.digest = dg.0;
+        out
     }
 }
 
